@@ -1,14 +1,17 @@
 #!/usr/bin/env python3
 """Regenerate MANIFEST.json from propcfg/*.json (claimed) and properties.jsonl (the rest → not_applicable).
 Per-property manifest text lives in propcfg/Cxx.json under "manifest": {level_text, level_note, technique, design_ref}."""
-import json, glob, os, subprocess
+import json, glob, os, subprocess, importlib.machinery, importlib.util
 ROOT = os.path.dirname(os.path.abspath(__file__))
+_l = importlib.machinery.SourceFileLoader("verif_check", os.path.join(ROOT, "check"))
+_spec = importlib.util.spec_from_loader("verif_check", _l)
+chk = importlib.util.module_from_spec(_spec)
+_l.exec_module(chk)
 props = [json.loads(l)["id"] for l in open(os.path.join(ROOT, "properties.jsonl")) if l.strip()]
 checks, na = [], []
 for pid in props:
-    p = os.path.join(ROOT, "propcfg", pid + ".json")
-    if os.path.exists(p):
-        cfg = json.load(open(p))
+    if glob.glob(os.path.join(ROOT, "propcfg", pid + ".json")) + glob.glob(os.path.join(ROOT, "propcfg", pid + ".*.json")):
+        cfg = chk.load_cfg(pid)
         if cfg.get("claimed", True):
             m = cfg.get("manifest", {})
             checks.append({
